@@ -45,7 +45,7 @@ from .columns import parse_column
 from .fixer import ParseFixer
 from ... import frame
 from ...auxiliary import MetadataBlock, Directive
-from ...table_metadata import TableMetadata
+from ...table_metadata import TableMetadata, ColumnUnitException
 
 # Typing alias: 2D grid of cells with rows and cols. Intended indexing: cell_grid[row][col]
 CellGrid = Sequence[Sequence]
@@ -474,7 +474,7 @@ def parse_blocks_stable(
         fixer.reset_fixes()
         try:
             block = handler(cell_grid, origin=origin, fixer=fixer)
-        except ValueError as e:
+        except (ValueError, ColumnUnitException) as e:
             issue_tracker.add_error(str(e), load_location=origin.input_location)
             return
 
